@@ -1545,6 +1545,11 @@ impl Vm {
             return Err(self.new_error_from_value(exc_object));
         };
 
+        // The recorded throw position is only meaningful while the exception is still in flight
+        // in the frame that threw it.
+        if !handler.has_catch_block() || self.active_fiber().frames.len() > handler.frame_count {
+            self.active_fiber_mut().error_ip = None;
+        }
         self.active_fiber_mut()
             .stack
             .truncate(handler.init_stack_size);
